@@ -629,14 +629,11 @@ def _bound_to_column_filtered(prog: Prog, fn: Fn, var: str) -> bool:
     """`var` is a loop target over a list built by a comprehension filtered with isinstance(<first>, Column)."""
     for kind, node in prog.local_defs(fn, var):
         if kind.startswith("unpack:") and isinstance(node, ast.For):
-            src = node.iter
-            if isinstance(src, ast.Name):
-                for k2, n2 in prog.local_defs(fn, src.id):
-                    if k2 == "assign" and isinstance(n2.value, ast.ListComp):
-                        lc = n2.value
-                        idx = int(kind.split(":")[1])
-                        if isinstance(lc.elt, ast.Tuple) and idx < len(lc.elt.elts):
-                            first = u(lc.elt.elts[idx])
-                            if any(f"isinstance({first}, Column)" in u(c) for g in lc.generators for c in g.ifs):
-                                return True
+            for lc in prog.value_sources(fn, node.iter):
+                if isinstance(lc, ast.ListComp):
+                    idx = int(kind.split(":")[1])
+                    if isinstance(lc.elt, ast.Tuple) and idx < len(lc.elt.elts):
+                        first = u(lc.elt.elts[idx])
+                        if any(f"isinstance({first}, Column)" in u(c) for g in lc.generators for c in g.ifs):
+                            return True
     return False
